@@ -216,7 +216,7 @@ def run(ctx, rep):
             elif r in ('restored-delete', 'invalid-delete'):
                 c, subj, lv = dec
                 after = o.region(c, lv, must)
-                rm_dir = has(after, {'REMOVE_DIR', 'REMOVE_TREE'}, is_dir)
+                rm_dir = has(after, {'REMOVE_DIR', 'REMOVE_TREE', 'REMOVE_FILE'}, is_dir)
                 rm_toml = has(after, {'REMOVE_FILE'}, is_toml)
                 mk = has(after, {'MKDIR'}, is_dir)
                 wr = has(after, {'WRITE'}, is_toml)
